@@ -9,7 +9,7 @@ pub fn meta() -> Meta {
     Meta {
         rule: "events = every comparison operator (== != < <= > >= cmp partial_cmp min max) on one ordered pair of durations, comparisons with a Unit, a+b > a for the pair, and slice::sort of vectors of 2..200 durations; expected from the i128 counts (total order; == true for equal counts, false when magnitudes differ or for exact negations beyond one century; == between a duration and its exact negation within one century is don't-care). Generation: all lattice pairs, pairs with century fields differing by exactly one ((c,n) vs (c+-1,NPC-n), (c+-1,n)), pairs straddling zero, pairs summing to one century, random pairs/triples. Non-trivial = counts equal, magnitudes equal, century fields differ by exactly one, operands straddle zero, or either operand at a bound; distinct = distinct pair hashes among those.",
         assumptions: &["operands read through to_parts()"],
-        mandatory: &["pair/centuries-differ-by-one", "pair/straddle-zero", "pair/equal-count", "pair/exact-negation", "pair/mirror-across-century", "sort/vector", "unit/compare"],
+        mandatory: &["pair/centuries-differ-by-one", "pair/straddle-zero", "pair/equal-count", "pair/exact-negation", "pair/mirror-across-century", "sort/vector", "unit/compare", "unit/exact-negation"],
         thorough_scale: 60,
         exhaustive_part: "all ordered pairs of the duration boundary lattice",
     }
@@ -131,13 +131,16 @@ pub fn check_unit(rep: &mut Rep, a: Duration) {
         match guard(|| (a.partial_cmp(&u), a < u, a > u, a <= u, a >= u, a == u)) {
             Err(e) => rep.fail(&format!("unit-cmp/panic/{}", e.class()), None, || format!("{} vs {:?} panicked {}", fmt_parts(pa), u, e.msg)),
             Ok((pc, lt, gt, le, ge, eq)) => {
-                if ca == -cu && cu < NPC {
-                    continue; // documented negation equality: don't care
+                // only `==` between a duration and its exact negation (within one century) is don't-care;
+                // the ordering operators must still follow the signed counts
+                let negation = ca == -cu && cu < NPC && ca != 0;
+                if negation {
+                    rep.class("unit/exact-negation");
                 }
                 if lt != (want == Ordering::Less) || gt != (want == Ordering::Greater) {
                     rep.fail("unit-cmp/value", None, || format!("{} vs {:?}: < {} > {} want {:?}", fmt_parts(pa), u, lt, gt, want));
                 }
-                if eq != (ca == cu) {
+                if !negation && eq != (ca == cu) {
                     rep.fail("unit-eq/value", None, || format!("{} == {:?} is {} (counts {} {})", fmt_parts(pa), u, eq, ca, cu));
                 }
                 if ca != cu && (pc != Some(want) || le != (want != Ordering::Greater) || ge != (want != Ordering::Less)) {
@@ -187,6 +190,14 @@ pub fn run(cfg: &Cfg, rep: &mut Rep) {
         check_unit(rep, a);
         for &y in lat.iter() {
             check_pair(rep, a, mk(y));
+        }
+    }
+    if sh == 0 {
+        for u in UNITS {
+            for d in [-1i128, 0, 1] {
+                check_unit(rep, mk(unit_ns(u) + d));
+                check_unit(rep, mk(-unit_ns(u) + d));
+            }
         }
     }
     let mut r = Rng::new(cfg.seed, 0x0300 + sh as u64);
